@@ -265,21 +265,16 @@ def load_update_seeds(reg):
                             " SIMPLE_SEED(k, old(get(streams, k)._original_seed), %s)"
                             " and get(streams, k)._random.g_S == Seed(get(streams, k)._seed)))" % R],
                        modifies=["heap.MersenneTwister._seed", "heap.Random.g_S"])
-    SS = z3.SeqSort(z3.StringSort())
-    nd = reg.ufun("nodup_str", SS, z3.BoolSort())
+    # sequences of strings are sequences of string ids (Seq(Int)): the 'seqref' lemmas apply; the
+    # bijection between strings and their ids is the axiom set 'strid'
+    from pyvc import sorts as _S
+    nd = reg.ufun("nodup_ref", z3.SeqSort(z3.IntSort()), z3.BoolSort())
     reg.specfun("nodupstr", lambda eng, s: mk_bool_(nd(s.t)))
-    s_, i_, j_ = z3.Const("ax_ss", SS), z3.Int("ax_si"), z3.Int("ax_sj")
-    note = "sequence facts over Seq(str): a duplicate-free key list has distinct elements at distinct positions; elements are members (assumed)"
-    reg.scoped_axiom("seqstr", z3.ForAll([s_, i_, j_], z3.Implies(z3.And(nd(s_), 0 <= i_, i_ < j_, j_ < z3.Length(s_)), s_[i_] != s_[j_]),
-                                         patterns=[z3.MultiPattern(s_[i_], s_[j_])]), note)
-    reg.scoped_axiom("seqstr", z3.ForAll([s_, i_], z3.Implies(z3.And(0 <= i_, i_ < z3.Length(s_)), z3.Contains(s_, z3.Unit(s_[i_]))),
-                                         patterns=[s_[i_]]), note)
-    reg.scoped_axiom("seqstr", z3.ForAll([s_, i_], z3.Implies(z3.And(nd(s_), 0 <= i_, i_ < z3.Length(s_)),
-                     z3.IndexOf(s_, z3.Unit(s_[i_]), 0) == i_), patterns=[s_[i_]]), note)
-    x_ = z3.String("ax_sx")
-    reg.scoped_axiom("seqstr", z3.ForAll([s_, x_], z3.Implies(z3.Contains(s_, z3.Unit(x_)),
-                     z3.And(0 <= z3.IndexOf(s_, z3.Unit(x_), 0), z3.IndexOf(s_, z3.Unit(x_), 0) < z3.Length(s_),
-                            s_[z3.IndexOf(s_, z3.Unit(x_), 0)] == x_)), patterns=[z3.Contains(s_, z3.Unit(x_))]), note)
+    for ax in _S.string_id_axioms():
+        reg.scoped_axiom("seqstr", ax, "strings stored in sequences / used as dict keys are represented by integer ids (bijection sid/sof)")
+    for f, n in list(reg.axiom_sets.get("seqref", [])):
+        reg.scoped_axiom("seqstr", f, n)
+    note = "strings in sequences are represented by ids through a bijection (modelling choice)"
     reg.trust(note)
 
 
